@@ -5403,3 +5403,98 @@ def r15_20(ctx, rule):
     from ..report import run_sub
     from . import c09
     run_sub(ctx, c09, {'R09.2': rule})
+
+
+@extra('C01', 'R01.27', 'in the notebook differs (diff_* of nbdime.diffing.notebooks) nothing is skipped or declared unchanged on the word of an ALIGNMENT predicate: the compare_* '
+       'functions answer "similar enough to be the same item" (difflib ratio, pointer values ignored), only strict_equal / compare_strict answer "equal"', 3)
+def r01_27(ctx, rule):
+    repo, cg = ctx.repo, ctx.cg
+    EXACT = {'strict_equal', 'compare_strict'}
+    n = 0
+    for fid, fn in sorted(repo.functions.items()):
+        if fid.split(':')[0] != 'nbdime.diffing.notebooks' or not fid.split(':')[1].startswith('diff_'):
+            continue
+        n += 1
+        bad = []
+        for x in walk_no_nested(fn):
+            if isinstance(x, (ast.If, ast.IfExp, ast.While)):
+                for c in ast.walk(x.test):
+                    nm = (dotted(c.func) or '').split('.')[-1] if isinstance(c, ast.Call) else ''
+                    if nm.startswith('compare_') and nm not in EXACT:
+                        bad.append((x, nm))
+        ctx.inst(rule, fid, 'conditions of the differ', not bad, 'no alignment predicate decides what is reported' if not bad else
+                 '`%s` decides whether a value is diffed at all: a change the predicate tolerates (a 3%% edit of an svg attachment, a different 0x... address) is reported as no change, '
+                 'and patching leaves the old value' % bad[0][1], bad[0][0] if bad else fn)
+    if n < 3:
+        raise AnalysisError('fewer diff_* functions than expected in nbdime.diffing.notebooks')
+
+
+@extra('C18', 'R18.16', 'where the GLOBAL attributes file is does not depend on whether it exists yet: the global arm of locate_gitattributes takes the path from git\'s configuration '
+       '(core.attributesfile, else the XDG default) without any existence test -- once the setting is there git reads only that path, and enable is what creates the file', 1)
+def r18_16(ctx, rule):
+    from ..util import if_chain
+    repo = ctx.repo
+    fid = 'nbdime.utils:locate_gitattributes'
+    fn = repo.func(fid)
+    arm = None
+    for st in fn.body:
+        if isinstance(st, ast.If):
+            arms, orelse = if_chain(st)
+            for test, body, node in arms:
+                if isinstance(test, ast.Compare) and 'global' in [const_val(c) for c in test.comparators] + [const_val(test.left)]:
+                    arm = body
+    if arm is None:
+        raise AnalysisError('locate_gitattributes: the arm for scope == "global" was not found')
+    # the arm ends where the next scope starts; statements after the chain that run for the global scope too are part of it
+    probes = [c for st in arm for c in ast.walk(st) if isinstance(c, ast.Call) and (dotted(c.func) or '').split('.')[-1] in ('isfile', 'exists', 'isdir', 'lexists', 'access', 'stat', 'is_file')]
+    reads = [c for st in arm for c in ast.walk(st) if isinstance(c, ast.List) and 'core.attributesfile' in [const_val(e) for e in c.elts]]
+    if not reads:
+        raise AnalysisError('locate_gitattributes: core.attributesfile is not consulted in the global arm')
+    ok = not probes
+    ctx.inst(rule, fid, 'global arm', ok, 'the configured path is used whether or not the file exists' if ok else
+             '%s: with core.attributesfile set and the file not yet created, enable writes the lines into another file, which git ignores in that configuration -- check-attr stays '
+             '`unspecified` after a successful enable' % repo.norm(probes[0])[:50], probes[0] if probes else fn)
+
+
+@extra('C19', 'R19.14', 'recursive_update, tabulated: a mapping in the new layer is merged into the target key by key at EVERY depth, also when the target does not have the key yet; unless '
+       'include_none, a null deletes its key and an emptied sub-mapping is pruned -- so a null never survives into the accumulated configuration, where it would delete a value '
+       'of a less specific section or a built-in default', 8)
+def r19_14(ctx, rule):
+    import copy as _copy
+    from .. import miniinterp
+    repo = ctx.repo
+    fid = 'nbdime.config:recursive_update'
+    fn = repo.func(fid)
+
+    def spec(t, new, inc):
+        for k, v in new.items():
+            if isinstance(v, dict):
+                sub = t.get(k)
+                if not isinstance(sub, dict):
+                    sub = {}
+                spec(sub, v, inc)
+                if not inc and not sub:
+                    t.pop(k, None)
+                else:
+                    t[k] = sub
+            elif not inc and v is None:
+                t.pop(k, None)
+            else:
+                t[k] = v
+        return t
+    cases = [({}, {'a': 1}), ({'a': 1}, {'a': 2, 'b': 3}), ({'a': 1}, {'a': None}), ({}, {'a': None}),
+             ({'S': {'x': 1}}, {'S': {'y': 2}}), ({'S': {'x': 1}}, {'S': {'x': None}}), ({}, {'S': {'x': None, 'y': 2}}), ({}, {'S': {'x': None}}),
+             ({'S': {'Ignore': {'/metadata': ['a']}}}, {'S': {'Ignore': {'/cells/*/metadata': ['b']}}}), ({}, {'S': {'Ignore': {'/metadata': None, '/cells': True}}}),
+             ({'S': {'Ignore': {'/metadata': ['a']}}}, {'T': {'Ignore': {'/metadata': None}}})]
+    for t0, new in cases:
+        for inc in (False, True):
+            t = _copy.deepcopy(t0)
+            try:
+                miniinterp.call(fn, [t, _copy.deepcopy(new), inc], what='recursive_update', globs={'recursive_update': fn})
+                got = t
+            except miniinterp.Raised as ex:
+                got = 'raises %s' % ex
+            want = spec(_copy.deepcopy(t0), _copy.deepcopy(new), inc)
+            ok = got == want
+            ctx.inst(rule, fid, 'target %r, new %r, include_none=%s' % (t0, new, inc), ok, '-> %r' % (want,) if ok else
+                     'gives %r instead of %r: a null (or an empty mapping) of the new layer survives in the accumulated configuration and later deletes an inherited value' % (got, want), fn)
